@@ -19,8 +19,9 @@ def delim_class(delim):
 
 
 class Gen:
-    def __init__(self, rng, delim, comment, single_line=False, hist=None, python=False):
+    def __init__(self, rng, delim, comment, single_line=False, hist=None, python=False, cont_comments=False):
         self.rng = rng
+        self.cont_comments = cont_comments    # continuation lines may carry a comment behind their text
         self.delim = delim
         self.comment = comment or b"#"
         self.cls = delim_class(delim)
@@ -216,8 +217,14 @@ class Gen:
                     self.count("continuation_line_8k")
                 ci, ct = self.blanks(1, 3), self.blanks(0, 2)
                 cl = ci + t + ct
-                it["lines"].append(cl)
+                ctc = None
+                if self.cont_comments and self.rng.random() < 0.4:
+                    # a comment behind the text of this line, introduced by any character of the comment set
+                    ctc = self.trailing_comment()
+                    self.count("continuation_trailing_comment")
+                it["lines"].append(cl + (ctc or b""))
                 it["cont"].append(cl)
+                it.setdefault("cont_tc", []).append(None if ctc is None else ctc[1:])
                 conts_sp.append((ci, t, ct))
             self.count("entry_with_continuation")
         return it
@@ -280,9 +287,14 @@ def expected(items):
                 ca = it["tc"] if ca is None else ca + b"\n" + it["tc"]
             v = it["value"]
             eca = ca
-            for cl in it["cont"]:
+            for j, cl in enumerate(it["cont"]):
                 v = (v or b"") + b"\n" + cl
-                if eca is not None:
+                ctc = it.get("cont_tc", [None] * len(it["cont"]))[j]
+                # the comments behind the lines of one entry are kept line by line (a line without one contributes an empty text
+                # once there is any)
+                if ctc is not None:
+                    eca = (eca or b"") + b"\n" + ctc
+                elif eca is not None:
                     eca = eca + b"\n"
             entries.append({"group": cur if cur is not None else NONE, "key": it["key"], "value": v, "cb": cb, "ca": eca,
                             "q": 1 if it["quotes"] else 0, "line": line, "first_line": first})
